@@ -205,12 +205,12 @@ auto show_off(long o) -> std::string
 }
 
 struct KeySeq { // a short key sequence without the heap
-    int v[24]{};
+    int v[48]{};
     std::size_t n{0};
     bool overflow{false};
     auto push(int q) -> void
     {
-        if (n < 24) {
+        if (n < 48) {
             v[n++] = q;
         } else {
             overflow = true;
@@ -857,12 +857,12 @@ struct Runner {
 };
 
 // ------------------------------------------------------------------ flat_multiset: construction only (that is all it has)
-[[maybe_unused]] auto judge_multi(char const* name, std::size_t size, bool empty, std::size_t max_size, long d_nc, long d_c, long d_cc, KeySeq const (&s)[6], bool weakly_ascending, std::vector<int> const& want) -> std::string
+[[maybe_unused]] auto judge_multi(char const* name, std::size_t size, bool empty, std::size_t max_size, long d_nc, long d_c, long d_cc, KeySeq const (&s)[6], bool weakly_ascending, std::vector<int> const& want, std::size_t cap = 4) -> std::string
 {
     auto const w = seq_of(want);
     if (size != want.size()) { return fmt("%s: size %zu, std::multiset has %zu", name, size, want.size()); }
     if (empty != want.empty()) { return fmt("%s: empty() wrong", name); }
-    if (max_size != 4) { return fmt("%s: max_size() != capacity of the container", name); }
+    if (max_size != cap) { return fmt("%s: max_size() != capacity of the container", name); }
     if (d_nc != static_cast<long>(want.size()) || d_c != d_nc || d_cc != d_nc) { return fmt("%s: end()-begin() != size()", name); }
     if (!(s[0] == w)) { return fmt("%s: iterates %s, std::multiset iterates %s", name, show_seq(s[0]).c_str(), show_seq(w).c_str()); }
     if (!(s[1] == w) || !(s[2] == w)) { return fmt("%s: begin()/cbegin() iteration differs from const begin()", name); }
@@ -872,7 +872,19 @@ struct Runner {
     return "";
 }
 
-template <typename Cont, typename CompT>
+// Cap = 4: one op per key (every container of <= 4 keys is enumerated).  Cap = 40 ("bulk"): the first op describes a
+// whole container: 9..40 keys (a), hashed from a seed (b) over a universe of 6 / 20 / 1000 values (c) — long enough for
+// every code path of the sort behind the constructor, with many, some or hardly any duplicates.
+auto bulk_keys(RawOp const& op, std::size_t cap) -> std::vector<int>
+{
+    std::size_t const len       = std::min<std::size_t>(9U + op.a % 32U, cap);
+    std::uint32_t const univ[3] = {6U, 20U, 1000U};
+    std::vector<int> keys;
+    for (std::size_t i = 0; i < len; ++i) { keys.push_back(static_cast<int>(splitmix64((static_cast<std::uint64_t>(op.b) << 16) + i) % univ[op.c % 3U])); }
+    return keys;
+}
+
+template <typename Cont, typename CompT, std::size_t Cap = 4>
 struct MultiRunner {
     using M = etl::flat_multiset<int, Cont, CompT>;
     static auto check(char const* name, M& m, std::vector<int> const& want) -> std::string
@@ -881,7 +893,7 @@ struct MultiRunner {
         KeySeq s[6];
         long const d_nc = static_cast<long>(m.end() - m.begin()), d_c = static_cast<long>(cm.end() - cm.begin()), d_cc = static_cast<long>(cm.cend() - cm.cbegin());
         bool asc = true;
-        if (cm.size() <= 4 && d_c == static_cast<long>(cm.size()) && d_nc == d_c && d_cc == d_c) {
+        if (cm.size() <= Cap && d_c == static_cast<long>(cm.size()) && d_nc == d_c && d_cc == d_c) {
             for (auto it = cm.begin(); it != cm.end(); ++it) { s[0].push(*it); }
             for (auto it = m.begin(); it != m.end(); ++it) { s[1].push(*it); }
             for (auto it = cm.cbegin(); it != cm.cend(); ++it) { s[2].push(*it); }
@@ -893,14 +905,18 @@ struct MultiRunner {
                 if (comp(s[0].v[i + 1], s[0].v[i])) { asc = false; }
             }
         }
-        return judge_multi(name, cm.size(), cm.empty(), cm.max_size(), d_nc, d_c, d_cc, s, asc, want);
+        return judge_multi(name, cm.size(), cm.empty(), cm.max_size(), d_nc, d_c, d_cc, s, asc, want, Cap);
     }
     static auto run(OpsCase const& k, int stats, std::size_t /*check_from*/) -> std::string
     {
         g_adapter_overflow = false;
         std::vector<int> keys;
-        for (auto const& op : k.ops) {
-            if (keys.size() < 4) { keys.push_back(static_cast<int>(op.a % 6U)); }
+        if constexpr (Cap > 4) {
+            if (!k.ops.empty()) { keys = bulk_keys(k.ops[0], Cap); }
+        } else {
+            for (auto const& op : k.ops) {
+                if (keys.size() < 4) { keys.push_back(static_cast<int>(op.a % 6U)); }
+            }
         }
         DirComp const dc{descending_v<CompT>};
         std::multiset<int, DirComp> oracle(keys.begin(), keys.end(), dc);
@@ -911,7 +927,7 @@ struct MultiRunner {
             fill(c, keys);
             M m(c);
             err = check("flat_multiset(container)", m, want);
-            if (err.empty() && !(snapshot(c, 4) == seq_of(keys))) { err = "flat_multiset(container) modified the caller's container"; }
+            if (err.empty() && !(snapshot(c, Cap) == seq_of(keys))) { err = "flat_multiset(container) modified the caller's container"; }
             if (err.empty()) {
                 M cp(m);
                 err = check("copy of flat_multiset", cp, want);
@@ -951,10 +967,27 @@ struct MultiRunner {
 // are keys that are equivalent to a stored one without being equal to it.  The comparator is transparent and also
 // accepts Dept{d}, which compares on dept only and is NOT convertible to the key: one Dept is equivalent to several
 // stored keys, and std::set answers find / count / lower_bound / upper_bound / equal_range for it with the whole run.
+// Moving a Rec really transfers its state: the source is left observably dead (-7,-7,-7), so an element that was
+// assigned from an already moved-from object, or moved twice, shows up in the content comparison with std::set.
 struct Rec {
     int dept{0};
     int id{0};
     int tag{0};
+    constexpr Rec() = default;
+    constexpr Rec(int d, int i, int t) : dept{d}, id{i}, tag{t} { }
+    constexpr Rec(Rec const&)                    = default;
+    constexpr auto operator=(Rec const&) -> Rec& = default;
+    constexpr Rec(Rec&& o) noexcept : dept{o.dept}, id{o.id}, tag{o.tag} { o.dept = o.id = o.tag = -7; }
+    constexpr auto operator=(Rec&& o) noexcept -> Rec&
+    {
+        if (this != &o) { // (self-move keeps the value: nothing the library may legitimately do is turned into a failure)
+            dept   = o.dept;
+            id     = o.id;
+            tag    = o.tag;
+            o.dept = o.id = o.tag = -7;
+        }
+        return *this;
+    }
     friend auto operator<=>(Rec const&, Rec const&) = default;
 };
 struct Dept {
@@ -978,8 +1011,8 @@ auto show_recs(std::vector<Rec> const& v) -> std::string
     return o + "]";
 }
 
-enum RCode : std::uint32_t { R_INSERT_CREF, R_INSERT_RREF, R_EMPLACE, R_ERASE_KEY, R_ERASE_ITER, R_INSERT_RANGE, R_CLEAR, R_INSERT_ALIAS, R_ERASE_ALIAS, R_OBSERVE, R_NCODES_STATIC, R_INSERT_HINT = R_NCODES_STATIC, R_NCODES_FLAT };
-char const* const rcode_names[] = {"insert(const&)", "insert(&&)", "emplace(dept,id,tag)", "erase(key)", "erase(iterator)", "insert(first,last)", "clear", "insert(*it)", "erase(*it)", "observe", "insert(hint,const&)"};
+enum RCode : std::uint32_t { R_INSERT_CREF, R_INSERT_RREF, R_EMPLACE, R_ERASE_KEY, R_ERASE_ITER, R_INSERT_RANGE, R_CLEAR, R_INSERT_ALIAS, R_ERASE_ALIAS, R_OBSERVE, R_ERASE_RANGE, R_MOVE_ROUND_TRIP, R_COPY_ROUND_TRIP, R_NCODES_STATIC, R_INSERT_HINT = R_NCODES_STATIC, R_NCODES_FLAT };
+char const* const rcode_names[] = {"insert(const&)", "insert(&&)", "emplace(dept,id,tag)", "erase(key)", "erase(iterator)", "insert(first,last)", "clear", "insert(*it)", "erase(*it)", "observe", "erase(first,last)", "move-construct + move-assign back", "copy-construct + copy-assign back", "insert(hint,const&)"};
 
 struct RObs {
     std::size_t size{0};
@@ -1240,6 +1273,34 @@ struct RecRunner {
                 }
                 break;
             }
+            case R_ERASE_RANGE: {
+                auto f = static_cast<std::ptrdiff_t>(op.a % (m.size() + 1));
+                auto l = f + static_cast<std::ptrdiff_t>(pick(op.b, m.size() - static_cast<std::size_t>(f)));
+                long o = 0;
+                if constexpr (Flat) {
+                    o = off(x.begin(), x.end(), x.erase(x.cbegin() + f, x.cbegin() + l));
+                } else {
+                    o = off(x.begin(), x.end(), x.erase(x.begin() + f, x.begin() + l));
+                }
+                m.erase(std::next(m.begin(), f), std::next(m.begin(), l));
+                if (o != f) { err = fmt("erase(first %td, last %td) returned iterator offset %s, expected %td", f, l, show_off(o).c_str(), f); }
+                break;
+            }
+            case R_MOVE_ROUND_TRIP: { // the elements travel through two real moves
+                Set c(std::move(x));
+                bool hm = false;
+                if (auto e = compare("move-constructed", c, m, hm); !e.empty()) { err = e; }
+                x = std::move(c);
+                break;
+            }
+            case R_COPY_ROUND_TRIP: {
+                Set c(x);
+                x.clear();
+                x = c;
+                bool hm = false;
+                if (auto e = compare("copy", c, m, hm); !e.empty()) { err = e; }
+                break;
+            }
             case R_ERASE_ALIAS: { // s.erase(*it): the argument is the element that is erased
                 auto p   = static_cast<std::ptrdiff_t>(op.a % m.size());
                 auto n   = x.erase(x.begin()[p]);
@@ -1491,6 +1552,11 @@ void enum_rec_histories(vf::Ctx& /*c: sharding is done by vf::enum_histories*/)
         alpha.push_back(RawOp{R_INSERT_ALIAS, 1, 0, 0});
         alpha.push_back(RawOp{R_ERASE_ALIAS, 0, 0, 0});
         alpha.push_back(RawOp{R_ERASE_ALIAS, 1, 0, 0});
+        alpha.push_back(RawOp{R_ERASE_RANGE, 0, 2, 0});
+        alpha.push_back(RawOp{R_ERASE_RANGE, 1, 1, 0});
+        alpha.push_back(RawOp{R_MOVE_ROUND_TRIP, 0, 0, 0});
+        alpha.push_back(RawOp{R_COPY_ROUND_TRIP, 0, 0, 0});
+        for (std::uint32_t a : {1U, 6U, 12U}) { alpha.push_back(RawOp{R_INSERT_RREF, a, 0, 0}); } // rvalues that land at the front / in the middle
         if (cfg.ncodes == R_NCODES_FLAT) {
             alpha.push_back(RawOp{R_INSERT_HINT, 9, 0, 0});
             alpha.push_back(RawOp{R_INSERT_HINT, 1, 2, 0});
